@@ -101,6 +101,7 @@ type sqlGen struct {
 	tables []*sqlTable
 
 	intEnum, strEnum, smallEnum *Decl
+	usedDashComma               bool
 	extEnum                     *Decl
 	extEnumVals                 []string
 	intEnumVals, strEnumVals    []string
@@ -181,6 +182,11 @@ func NewSQLProg(idx int, r *rand.Rand) *Program {
 		g.makeLinkTable(i)
 	}
 	g.addDirectives()
+	if g.pr(0.25) && len(g.tables) > 0 {
+		t := g.tables[g.r.Intn(len(g.tables))]
+		g.addDecl(&Decl{Name: g.fresh(t.decl.Name + "Alias"), Kind: DAlias, Under: Ref(t.decl)}, "models.go")
+		p.Feature("sql:alias-of-a-table-struct")
+	}
 	for _, t := range g.tables {
 		g.truth.Tables = append(g.truth.Tables, *t.truth)
 	}
@@ -312,6 +318,15 @@ func (g *sqlGen) column(name string, tableIdx int) (cs colSpec, crudOK bool) {
 	case 6:
 		f.Type = Slice(Basic("byte"))
 		c.Kind, c.SQLType, c.Domain = "bytes", "bytea", "bytes"
+		switch g.r.Intn(3) {
+		case 1: // the other spelling of the same type
+			f.Type = Slice(Basic("uint8"))
+			c.Kind = "bytes:uint8-spelling"
+		case 2:
+			d := g.addDecl(&Decl{Name: g.fresh("Checksum"), Kind: DNamed, Under: Slice(Basic("uint8"))}, "models.go")
+			f.Type = Ref(d)
+			c.Kind = "bytes:named-uint8-slice"
+		}
 	case 7, 8: // named slice of a basic
 		b := g.pick("string", "int64", "bool", "float64", "int32", "string", "int64")
 		if g.pr(0.12) {
@@ -547,6 +562,11 @@ func (g *sqlGen) payload() *Decl {
 	mkStruct := func(stem string) *Decl {
 		d := g.addDecl(&Decl{Name: g.fresh(stem), Kind: DStruct}, "other.go")
 		d.Fields = append(d.Fields, &Field{Name: "Note", Type: Basic("string")}) // never an all-integer composite
+		if !g.usedDashComma && g.pr(0.3) {
+			g.usedDashComma = true
+			d.Fields = append(d.Fields, &Field{Name: "Minus", Type: Basic("int"), Tag: `json:"-,"`}) // the key is "-"
+			g.p.Feature("sql:jsonb-field-with-key-dash")
+		}
 		for i := 0; i < 1+g.r.Intn(4); i++ {
 			f := &Field{Name: fmt.Sprintf("P%d", i), Type: leaf()}
 			if g.pr(0.3) {
@@ -1102,6 +1122,20 @@ func (g *sqlGen) addDirectives() {
 				tr.Queries = append(tr.Queries, q)
 				doc = append(doc, "gomacro:QUERY "+q.Raw)
 				g.p.Feature("directive:query-repeated-placeholder")
+			}
+		}
+		if g.pr(0.4) && len(cols) >= 2 {
+			// a name coming back AFTER another one (a, b, a) and comparison operators other than "="
+			a, b := cols[0], cols[len(cols)-1]
+			if a.Field != b.Field && !a.Primary {
+				fn := g.fresh("Sweep" + tr.Struct)
+				q := SQLQuery{Func: fn,
+					Raw:      fmt.Sprintf("%s DELETE FROM %s WHERE %s = $first$ AND %s <> $second$ AND (%s >= $first$ OR %s < $first$) ;", fn, tr.Struct, a.Field, b.Field, a.Field, a.Field),
+					Expected: fmt.Sprintf("DELETE FROM %s WHERE %s = $1 AND %s <> $2 AND (%s >= $1 OR %s < $1) ;", tr.SQLName, a.Field, b.Field, a.Field, a.Field),
+					ArgNames: []string{"first", "second"}, ArgTypes: []string{a.GoType, b.GoType}, Fields: []string{a.Field, b.Field}, Execable: false}
+				tr.Queries = append(tr.Queries, q)
+				doc = append(doc, "gomacro:QUERY "+q.Raw)
+				g.p.Feature("directive:query-name-returns-after-another-and-other-operators")
 			}
 		}
 		for _, c := range cols {
